@@ -21,6 +21,8 @@ pub struct SinkState {
     pub fail_at: Option<usize>,
     pub count: usize,
     pub failed: bool,
+    /// a `write` call accepts at most this many bytes (legal for any `Write`; `write_all` callers never notice)
+    pub max_write: usize,
 }
 
 #[derive(Clone)]
@@ -36,6 +38,7 @@ impl Sink {
             fail_at: None,
             count: 0,
             failed: false,
+            max_write: usize::MAX,
         })))
     }
     pub fn recording() -> Sink {
@@ -46,6 +49,11 @@ impl Sink {
     pub fn failing(k: usize) -> Sink {
         let s = Sink::new();
         s.0.lock().unwrap().fail_at = Some(k);
+        s
+    }
+    pub fn short_writing(max: usize) -> Sink {
+        let s = Sink::new();
+        s.0.lock().unwrap().max_write = max.max(1);
         s
     }
     pub fn bytes(&self) -> Vec<u8> {
@@ -66,6 +74,7 @@ impl Write for Sink {
         let mut st = self.0.lock().unwrap();
         Sink::tick(&mut st)?;
         let pos = st.cur.position();
+        let b = &b[..b.len().min(st.max_write)];
         if st.record {
             st.ops.push(Op::Write { pos, len: b.len() });
             st.log.push((pos, b.to_vec()));
